@@ -34,6 +34,9 @@ import (
 type Fail struct {
 	Sig string // signature: clause | site | normalised message
 	Msg string // human readable, deterministic
+	// NoShrink: every re-execution of the case costs seconds (a hang): the failure is recorded as
+	// found, unshrunk, and the search goes on
+	NoShrink bool
 }
 
 // Failf builds a Fail.
@@ -334,6 +337,12 @@ func Run[T any](c *Ctx, name string, n int, gen func(*rapid.T) T, oracle func(T,
 				return
 			}
 			b, _ := json.Marshal(tc)
+			if f.NoShrink {
+				c.res.Failures = append(c.res.Failures, Failure{Property: c.ID, Check: name, Sig: f.Sig, Msg: f.Msg, Case: b, Seed: seed})
+				c.excl[f.Sig] = true
+				c.mu.Unlock()
+				return
+			}
 			c.last = &Failure{Property: c.ID, Check: name, Sig: f.Sig, Msg: f.Msg, Case: b, Seed: seed}
 			c.mu.Unlock()
 			// the rapid-visible message is the signature only, so that shrinking may
